@@ -80,7 +80,9 @@ def escOfByte (b : UInt8) : Tok := .esc (hexDigitUpper (b.toNat / 16)) (hexDigit
 def utf8 (c : Char) : List UInt8 := String.utf8EncodeChar c
 
 /-- RFC 3986 percent-decoding of the UTF-8 encoding of a string, token by token: the meaning
-of "decoded" in C01/C02/C14 (a stray `%` stands for itself, `+` is not a space) -/
+of "decoded" in C01/C02/C14 (a stray `%` stands for itself, `+` is a plus sign: this reading
+cannot tell `+` from `%2B`; for a query key / value C01 also states the form reading, where a
+raw `+` is a space — `Canonicalize.formStr`, FX-C01-6e09416) -/
 def pctTok : Tok → List UInt8
   | .raw c => utf8 c
   | .esc h1 h2 => [byteOf h1 h2]
@@ -167,6 +169,54 @@ def escapeRaw (ts : List Tok) : List Tok := ts.flatMap escTok
 /-- `unquote(s, only_printable=True, normalize_space=True, unsafe=U, lossless=True)` -/
 def safelyUnquote (U : List UInt8) (s : Str) : Str := render (unquoteToks U (escapeRaw (tokens s)))
 
+/-! ## safely_unquote_* in the order of the Python code
+
+`safelyUnquote` above escapes the raw non-printable characters BEFORE decoding (`escapeRaw`) and
+normalises spaces token by token (`itemOf`).  `unquote` does it afterwards, on the decoded
+string: `NON_PRINTABLE_RE.sub(_requote_match, q)`, then `q.replace(" ", "%20")`.
+`safelyUnquotePost` is that order, step by step; `Lemmas/QuotePost.lean` proves the two equal for
+every unsafe set of ASCII bytes (`safelyUnquotePost_eq`), and both are compared with the real
+functions on every run. -/
+
+/-- `_unquote_impl` on one token, nothing else (no space normalisation) -/
+def itemOfPlain (U : List UInt8) : Tok → Item
+  | .raw c => .lit (.raw c)
+  | .stray => .lit (.esc '2' '5')
+  | .esc h1 h2 =>
+    let b := byteOf h1 h2
+    if keepEsc U b then .lit (.esc h1 h2)
+    else if b < 0x80 then .lit (.raw (Char.ofNat b.toNat))
+    else .byte b
+
+/-- `.decode("utf-8", "ural.requote")` on a run of decoded bytes: well-formed sequences as
+characters (whatever they are), ill-formed bytes re-escaped -/
+def flushPlain (bs : List UInt8) : List Tok :=
+  (segment bs).flatMap fun
+    | .inl c => [.raw c]
+    | .inr b => [escOfByte b]
+
+def assemblePlain : List Item → List UInt8 → List Tok
+  | [], acc => flushPlain acc
+  | .lit t :: r, acc => flushPlain acc ++ t :: assemblePlain r []
+  | .byte b :: r, acc => assemblePlain r (acc ++ [b])
+
+/-- `"".join(_generate_unquoted_parts(string, …))`: the decoded string -/
+def decodeOnly (U : List UInt8) (s : Str) : Str :=
+  render (assemblePlain ((tokens s).map (itemOfPlain U)) [])
+
+/-- `NON_PRINTABLE_RE.sub(_requote_match, q)`: every character the regex matches becomes the
+upper-case escapes of its UTF-8 bytes -/
+def requoteNonPrintable (q : Str) : Str :=
+  q.flatMap fun c => if staysEscaped c then render ((utf8 c).map escOfByte) else [c]
+
+/-- `q.replace(" ", "%20")` -/
+def normalizeSpace (q : Str) : Str := q.flatMap fun c => if c = ' ' then ['%', '2', '0'] else [c]
+
+/-- `unquote(s, only_printable=True, normalize_space=True, unsafe=U, lossless=True)`, in the
+order of the code: decode, re-escape the non-printable characters, normalise spaces -/
+def safelyUnquotePost (U : List UInt8) (s : Str) : Str :=
+  normalizeSpace (requoteNonPrintable (decodeOnly U s))
+
 /-! ## safely_quote -/
 
 /-- characters `urllib.parse.quote` leaves alone with its default `safe="/"` -/
@@ -180,8 +230,47 @@ def quoteTok : Tok → List Tok
 
 def quoteToks (ts : List Tok) : List Tok := ts.flatMap quoteTok
 
-/-- `safely_quote` -/
+/-- `safely_quote(string)` (default `safe="/"`) -/
 def safelyQuote (s : Str) : Str := render (quoteToks (tokens s))
+
+/-! ### `safely_quote(string, safe=…)`
+
+`safely_quote_qsl` calls `safely_quote(item, safe="/+")`: in a query a raw `+` stands for a
+space and `%2B` for a plus sign, so quoting must leave the raw `+` alone (FX-C01-6e09416).  The
+`…By f` functions are `safely_quote` with an arbitrary set `f` of characters left alone;
+`quoteSafeIn safe` is the set `urllib.parse.quote(…, safe=safe)` leaves alone. -/
+
+/-- `_ALWAYS_SAFE` of `urllib.parse`: letters, digits and `_.-~` -/
+def quoteAlwaysSafe (c : Char) : Bool :=
+  isAsciiAlpha c || isAsciiDigit c || c = '_' || c = '.' || c = '-' || c = '~'
+
+/-- characters `urllib.parse.quote(…, safe=safe)` leaves alone: `_ALWAYS_SAFE` and the ASCII
+characters of `safe` (`safe.encode("ascii", "ignore")`) -/
+def quoteSafeIn (safe : Str) (c : Char) : Bool :=
+  quoteAlwaysSafe c || (decide (c.toNat < 0x80) && safe.contains c)
+
+/-- (a stray `%` is a character like any other for `quote`: it stays when `safe` holds `%`) -/
+def quoteTokBy (f : Char → Bool) : Tok → List Tok
+  | .raw c => if f c then [.raw c] else (utf8 c).map escOfByte
+  | .esc h1 h2 => [.esc h1 h2]
+  | .stray => if f '%' then [.stray] else [.esc '2' '5']
+
+def quoteToksBy (f : Char → Bool) (ts : List Tok) : List Tok := ts.flatMap (quoteTokBy f)
+
+/-- `safely_quote` with the set `f` of characters left alone -/
+def safelyQuoteBy (f : Char → Bool) (s : Str) : Str := render (quoteToksBy f (tokens s))
+
+/-- `safely_quote(string, safe=safe)` -/
+def safelyQuoteIn (safe : Str) (s : Str) : Str := safelyQuoteBy (quoteSafeIn safe) s
+
+/-- the `safe` argument `safely_quote_qsl` passes -/
+def qslSafe : Str := ['/', '+']
+
+/-- what `safely_quote_qsl` leaves alone in a key or value -/
+def quoteSafeQ (c : Char) : Bool := quoteSafeIn qslSafe c
+
+/-- `safely_quote(item, safe="/+")`: a query key or value -/
+def quoteQueryItem (s : Str) : Str := safelyQuoteBy quoteSafeQ s
 
 /-! ## upper_quoted -/
 
